@@ -53,20 +53,29 @@ fn attempt(c: &SleepCase) -> Result<usize, vh::runner::Failure> {
     offs.sort_unstable();
     let target = unsafe { libc::pthread_self() } as usize;
     let go = Arc::new(AtomicBool::new(false));
+    let ready = Arc::new(AtomicBool::new(false));
     let helper = if offs.is_empty() {
         None
     } else {
         let go = go.clone();
+        let ready = ready.clone();
         Some(std::thread::spawn(move || {
+            // be on a CPU when the sleep starts: announce, then spin (bounded by the main
+            // thread's few instructions between seeing `ready` and setting `go`)
+            ready.store(true, Ordering::Release);
             while !go.load(Ordering::Acquire) {
-                std::thread::yield_now();
+                core::hint::spin_loop();
             }
             let t0 = Instant::now();
             for o in offs {
                 let at = Duration::from_micros(o as u64);
+                // coarse wait by sleeping, the last 200 us by spinning (timer slack, wake-up latency)
                 let now = t0.elapsed();
-                if at > now {
-                    std::thread::sleep(at - now);
+                if at > now + Duration::from_micros(250) {
+                    std::thread::sleep(at - now - Duration::from_micros(200));
+                }
+                while t0.elapsed() < at {
+                    core::hint::spin_loop();
                 }
                 unsafe {
                     libc::pthread_kill(target as libc::pthread_t, libc::SIGUSR1);
@@ -74,6 +83,11 @@ fn attempt(c: &SleepCase) -> Result<usize, vh::runner::Failure> {
             }
         }))
     };
+    if helper.is_some() {
+        while !ready.load(Ordering::Acquire) {
+            std::thread::yield_now();
+        }
+    }
     let handled_before = HANDLED.load(Ordering::Relaxed);
     sc::verif::log_begin();
     go.store(true, Ordering::Release);
@@ -113,7 +127,7 @@ pub fn check_sleep(c: &SleepCase) -> CaseResult {
     // A signal planned inside the sleep can still miss it when the helper thread is scheduled
     // late. Every attempt asserts the lower bound; the case is repeated (at most 3 attempts) only
     // to make "this case interrupts the sleep" reproducible for shrinking and replay.
-    let planned_inside = c.sig_us.iter().any(|&o| (o as u64) * 1000 + 200_000 < c.d_ns as u64);
+    let planned_inside = c.sig_us.iter().any(|&o| (o as u64) * 1000 < c.d_ns as u64);
     let mut eintr = attempt(c)?;
     let mut attempts = 1;
     while eintr == 0 && planned_inside && attempts < 3 {
